@@ -621,6 +621,37 @@ func c14ExecInBubble(t *testing.T, p *Plan) (r *c14Result) {
 				}
 				settle()
 				observe(fmt.Sprintf("op %d restart", oi), true)
+			case "writefault":
+				// the log grows and the write of the update that follows fails once inside the database driver (SQLite busy, disk
+				// full, I/O error): the witness must simply catch up at a later poll
+				if m.dbPath == "" {
+					continue
+				}
+				st.mu.Lock()
+				st.size += 1 + op.D
+				st.mu.Unlock()
+				var fmu sync.Mutex
+				target, fired := w.Logs[l].ID, false
+				prevFault := mainDrvFault
+				kind := []string{"busy", "full", "ioerr", "locked"}[op.MV%4]
+				mainDrvFault = func(dop, arg string) error {
+					fmu.Lock()
+					defer fmu.Unlock()
+					if dop == "Exec" && arg == target && !fired {
+						fired = true
+						return injected(kind)
+					}
+					return nil
+				}
+				settle()
+				settle()
+				mainDrvFault = prevFault
+				fmu.Lock()
+				if fired {
+					r.stats.Fired["write_failed_in_driver/"+kind]++
+				}
+				fmu.Unlock()
+				observe(fmt.Sprintf("op %d grow with a failed write", oi), true)
 			case "killcommit":
 				// the log grows; the update that follows is held right before its COMMIT (as if the process were about to be killed
 				// there); whatever the service hands out meanwhile is noted; then the commit fails, the service is stopped and a new
@@ -936,6 +967,9 @@ func init() {
 				if r.Bool() {
 					p.Cfg.Extra["none_log"] = 1
 				}
+			}
+			if p.Cfg.Store == "sqlite" && r.Chance(0.3) {
+				p.Ops = append(p.Ops, Op{K: "writefault", L: r.IntN(nl), D: uint64(r.IntN(300)), MV: r.Uint64()})
 			}
 			if p.Cfg.Store == "sqlite" && r.Chance(0.25) {
 				p.Ops = append(p.Ops, Op{K: "killcommit", L: r.IntN(nl), D: uint64(r.IntN(300))})
